@@ -2,7 +2,6 @@ package c06
 
 import (
 	"fmt"
-	"os"
 	"sort"
 	"strconv"
 	"strings"
@@ -429,9 +428,6 @@ func checkL1(c *l1Case, o *pt.Obs) error {
 
 	cutInside := false
 	for i, p := range c.Parts[1:] {
-		if p.Topo == "parallel" && os.Getenv("C06_DEV_NOPAR") != "" {
-			continue
-		}
 		r := runChain(text, tb, p)
 		if r.Err == "notparallel" {
 			o.Class("parallel_not_applicable")
